@@ -67,7 +67,8 @@ def life_oracle(cid, c, out, fails, bump):
     """connection lifecycle through the real streamWriter: every connection's bytes, read by the fresh
        decoder the reader side builds for that connection, are exactly the messages written to it"""
     parts = out.split(" | ")
-    conns = split_items(c[4])
+    # link heartbeats (also heartbeat-shaped input messages) are dropped by the reader loop
+    conns = ["(" + " ".join(m for m in split_items(conn) if not m.startswith("(8 0 0 ")) + ")" for conn in split_items(c[4])]
     wf = parts[0] == "wf=1"
     bump("L/%s/%s" % (c[1], "wf" if wf else "nonwf"))
     bump("L-connections=%d" % len(conns))
@@ -305,9 +306,9 @@ def run(ctx):
                             f.write(line if line.endswith("\n") else line + "\n")
             runs.append(("corpus", "-replay %s" % path))
         if quick:
-            runs.append(("fresh", "-seed %d -n 120 -nraw 300 -nall 24 -nbig 1 -exh 3 -nlife 40 -nnet 12 -nhand 16" % ctx.seed))
+            runs.append(("fresh", "-seed %d -n 120 -nraw 300 -nall 24 -nbig 1 -exh 3 -nlife 40 -nnet 12 -nhand 16 -exhq 3" % ctx.seed))
         else:
-            runs.append(("fresh", "-seed %d -n 1500 -nraw 6000 -nall 600 -nbig 6 -bigcuts full -exh 5 -nlife 600 -nnet 150 -nhand 300 -nburst 3" % ctx.seed))
+            runs.append(("fresh", "-seed %d -n 1500 -nraw 6000 -nall 600 -nbig 6 -bigcuts full -exh 5 -nlife 600 -nnet 150 -nhand 300 -nburst 3 -exhq 4" % ctx.seed))
 
     all_mism, all_fail, total, hist_all, samples, distinct = [], [], 0, {}, [], set()
     for sub, args in runs:
@@ -339,7 +340,7 @@ def run(ctx):
 
     def search():
         # larger generation judged by the direct oracle only
-        d2, err, _ = run_both(ctx, "search", "-seed %d -n 600 -nraw 3000 -nall 100 -nbig 2 -exh 4 -nlife 400 -nnet 60 -nhand 100" % (ctx.seed + 1000003))
+        d2, err, _ = run_both(ctx, "search", "-seed %d -n 600 -nraw 3000 -nall 100 -nbig 2 -exh 4 -nlife 400 -nnet 60 -nhand 100 -exhq 4" % (ctx.seed + 1000003))
         if d2 is None:
             return []
         cases = parse_cases(os.path.join(d2, "cases.tsv"))
